@@ -9,8 +9,8 @@ min_min_rule / max_max_rule / min_max_rule / max_min_rule   -- Op2(Op1(x, c...),
   (negative, fractional, +-inf for floats, so lower > upper happens regularly), materialised as Constant node / initializer /
   overridable initializer-input; near-misses: a non-constant operand (second graph input, or Identity(constant)), x as the
   second operand of the inner node, inner node as second operand of the outer node; inner output also a graph output.
-  A drawn "clean" profile (6 of 10) restricts all operands to true constants with one element and arity >= 2 (the side
-  conditions of the two Clip fusions); for Max(Min(x, ub), lb) the lower bound is kept <= ub in 7 of 10 draws.  Constant VALUES
+  A drawn "clean" profile (7 of 10 for Min/Max pairs, 5 of 10 for equal ops) restricts all operands to true constants with one element and arity >= 2 (the side
+  conditions of the two Clip fusions); for Max(Min(x, ub), lb) the lower bound is kept <= ub in 8 of 10 draws.  Constant VALUES
   are a function of one integer seed drawn first (g.seed()), all structural choices are individual draws.
   dtypes also int8 / uint8.
   NOT enumerated: NaN constants, bfloat16 / 16-bit ints / uint16..64, constants that broadcast x to a larger shape other
@@ -23,13 +23,14 @@ successive_relu_rule / successive_clip_rule / successive_clip_relu_rule / succes
   initializer-input (near-miss) / graph input (near-miss) / Identity(constant) (near-miss); dtype float32/float64/float16/
   int32/int8 (+ int64/uint8 for Clip-only chains; Relu on ints pins opset >= 14; onnxruntime has no Relu-14 int64 kernel so that
   combination is rare); x a graph input or a node output; static or symbolic dims; inner output also a graph output; Clip-6
-  attribute form (min/max attributes, float32) at opset 9/10.  "clean" profile (5 of 10): all bounds true constants.  Bound
+  attribute form (min/max attributes, float32) at opset 9/10.  "clean" profile (6 of 10): all bounds true constants.  Bound
   VALUES are a function of one seed drawn first.  (The rules read the dtype of the Clip's first input, so they only fire when the
   assembly mode gives the intermediate a value_info entry.)
   NOT enumerated: non-scalar ([1]) bounds (invalid per spec), NaN bounds, uint16..64 / int16, bfloat16.
 
 cast_constant_of_shape_rule / cast_constant_of_shape_without_value_rule  -- Cast(ConstantOfShape(shape[, value=v]), to=t)
-  drawn: value absent / present; v dtype over float16/32/64, (u)int8/16/32/64, bool; v from a per-dtype edge list (negative,
+  drawn (value dtype, value and target type as a function of one seed drawn first; the rest individually): value absent /
+  present; v dtype over float16/32/64, (u)int8/16/32/64, bool; v from a per-dtype edge list (negative,
   fractional, large, -0.0, inf, nan, min/max of the type), v tensor shape [1] (rank 0 is rejected by onnx type inference); t over the same dtypes plus STRING (from
   integer / bool v only) and bfloat16; shape operand: constant (Constant / initializer / overridable) [2] [2,3] [] [1] [1,2,1] [0],
   or dynamic (Shape of a graph input, static or symbolic dims); Cast.saturate attribute at opset >= 19; ConstantOfShape output
@@ -59,6 +60,10 @@ materialize_reshape_shape_rule  -- Reshape(x, shape) with a non-constant shape
   assembly mode (no value_info / sample shapes / onnx shape inference with or without data propagation).
   NOT enumerated: shape operands that are a true run-time input (other feeds would make the host fail), dtype other than
   float32/int64/float64.
+
+Implementation notes: "static graph outputs" is requested from the assembler through g.cfg["output_shapes"] = "static" (the
+only cfg key touched).  _rare()/_mostly() keep near-miss switches off at the minimal draw and at the end points of the
+underlying integer draw, which Hypothesis over-represents; pick lists carry the common choice first and last for the same reason.
 """
 from __future__ import annotations
 
@@ -77,11 +82,16 @@ SYMS = ["N", "M", "K", "L"]
 
 # ------------------------------------------------------------------------------------------------ shared helpers
 def _rare(g, num, den=10):
-    """Like g.chance(num, den) but False on the all-zero (minimal) draw, so the simplest example is a plain instance."""
-    return not g.chance(den - num, den)
+    """Probability num/den, but False at BOTH ends of the underlying integer draw: Hypothesis over-represents the minimal
+    (all-zero) draw and the range end points, and the plain instance should be what those produce."""
+    return 1 <= g.draw(st.integers(0, den - 1)) <= num
 
 
-def _x(g, dtypes, ranks=(2, 1, 0, 2, 3), dim_choices=(2, 3, 1), sym=3, via_node=3, shape=None):
+def _mostly(g, num, den=10):
+    return not _rare(g, den - num, den)
+
+
+def _x(g, dtypes, ranks=(2, 1, 0, 3, 2), dim_choices=(2, 3, 1, 2), sym=3, via_node=3, shape=None):
     """A fresh data operand: graph input (static or symbolic declared dims), optionally passed through Identity so that its
     type/shape is known to the rewriter only through value_info."""
     dt = np.dtype(g.pick(list(dtypes)))
@@ -129,11 +139,11 @@ def _mm_const(g, x, state):
     """One 'constant' operand of a Min/Max node.  Returns Val."""
     dt = x.dtype
     clean = state["clean"]
-    kind = "const" if clean else g.pick(["const"] * 10 + ["input", "computed"])
+    kind = "const" if clean else g.pick(["const"] * 5 + ["input", "computed"] + ["const"] * 5)
     pool = _MM_F if dt.kind == "f" else _MM_I if dt.kind == "i" else [abs(v) for v in _MM_I]
     rng = state["rng"]
     val = pool[int(rng.integers(len(pool)))]
-    if state.get("cap") is not None and g.chance(7):
+    if state.get("cap") is not None and _mostly(g, 8):
         # second node of Max(Min(x, ub), lb): mostly keep lb <= ub (the rule's side condition), sometimes not
         ok = [v for v in pool if v <= state["cap"]] or [min(pool)]
         val = ok[int(rng.integers(len(ok)))]
@@ -141,7 +151,7 @@ def _mm_const(g, x, state):
         val = g.pick([np.inf, -np.inf])
         state["tags"].add("inf")
     state["vals"].append(val)
-    shp_kind = g.pick(["scalar"] * 6 + ["one", "one", "oneone", "rank+1"] + ([] if clean else ["vector", "vector", "full", "full"]))
+    shp_kind = g.pick(["scalar"] * 3 + ["one", "one", "oneone", "rank+1"] + ([] if clean else ["vector", "vector", "full", "full"]) + ["scalar"] * 3)
     if shp_kind == "scalar":
         shape = ()
     elif shp_kind == "one":
@@ -169,20 +179,20 @@ def _mm_const(g, x, state):
         r = g.emit("Identity", [c])
         state["tags"].add("nonconst_computed")
         return r[0] if r else c
-    how = g.pick(["node", "init"] if clean else ["node", "init", "ovinit"])
+    how = g.pick(["node", "init"] if clean else ["node", "init", "ovinit", "init"])
     state["hows"].add(how)
     return g.const_array(arr, how=how)
 
 
 def _minmax(g, prefer):
     rng = np.random.default_rng(g.seed())  # drawn first: constant VALUES are a function of this seed
-    op1, op2 = prefer if g.chance(8) else (g.pick(["Min", "Max"]), g.pick(["Min", "Max"]))
-    x = _x(g, [F32, F32, F32, F32, F64, F64, I64, I64, I32, I32, F16, I8, U8])
+    op1, op2 = prefer if _mostly(g, 8) else (g.pick(["Min", "Max"]), g.pick(["Min", "Max"]))
+    x = _x(g, [F32, F32, F32, F64, F64, I64, I64, I32, I32, F16, I8, U8, F32])
     # "clean" profile: all operands true constants of size 1 (what the Clip fusions require); otherwise everything is free
-    clean = g.chance(6)
+    clean = _mostly(g, 7 if op1 != op2 else 5)
     state = {"tags": set(), "shapes": set(), "hows": set(), "rng": rng, "clean": clean, "vals": [], "cap": None}
-    n1 = g.pick([2, 2, 2, 3] if clean else [2, 2, 1, 3, 2])
-    n2 = g.pick([2, 2, 2, 3] if clean else [2, 2, 1, 3, 2])
+    n1 = g.pick([2, 2, 2, 3, 2, 2] if clean else [2, 2, 1, 3, 2])
+    n2 = g.pick([2, 2, 2, 3, 2, 2] if clean else [2, 2, 1, 3, 2])
     c1 = [_mm_const(g, x, state) for _ in range(n1 - 1)]
     if (op1, op2) == ("Min", "Max") and state["vals"]:
         state["cap"] = min(state["vals"])
@@ -219,7 +229,7 @@ def _minmax(g, prefer):
         v1, v2 = state["vals"][: n1 - 1], state["vals"][n1 - 1:]
         lb, ub = (max(v2), min(v1)) if op1 == "Min" else (max(v1), min(v2))
         g.features.add(f"{tag}:{'lb_gt_ub' if lb > ub else 'lb_le_ub'}")
-    return _finish(g, r2, r1[0], p_inner=1 if clean else 3)
+    return r2 if clean else _finish(g, r2, r1[0], p_inner=3)
 
 
 @register("min_min_rule")
@@ -253,7 +263,7 @@ def _clip_bound(g, dt, state):
     if dt.kind == "u":
         val = abs(val)
     arr = np.asarray(val, dtype=dt)
-    how = g.pick(["init", "node"]) if state["clean"] else g.pick(["node"] * 4 + ["init"] * 4 + ["ovinit", "input", "computed"])
+    how = g.pick(["init", "node"]) if state["clean"] else g.pick(["node"] * 4 + ["ovinit", "input", "computed"] + ["init"] * 4)
     state["bounds"].append(float(val))
     if how == "input":
         v = g.add_input(dt, (), style="smallint")
@@ -270,7 +280,7 @@ def _clip_bound(g, dt, state):
 
 
 def _clip(g, x, state, old_form):
-    form = g.pick(["both", "both", "both", "min", "max", "none"])
+    form = g.pick(["both", "both", "min", "max", "none", "both"])
     state["forms"].append(form)
     if old_form:
         attrs = {}
@@ -299,12 +309,12 @@ def _clip(g, x, state, old_form):
 
 def _reluclip(g, prefer):
     rng = np.random.default_rng(g.seed())  # drawn first: bound VALUES are a function of this seed
-    ops = list(prefer) if g.chance(8) else [g.pick(["Relu", "Clip"]), g.pick(["Relu", "Clip"])]
+    ops = list(prefer) if _mostly(g, 8) else [g.pick(["Relu", "Clip"]), g.pick(["Relu", "Clip"])]
     if _rare(g, 1):
         ops.append(g.pick(["Relu", "Clip"]))
-    old_form = "Clip" in ops and _rare(g, 1, 12)
+    old_form = "Clip" in ops and _rare(g, 1, 20)
     # onnxruntime: Relu-14 has no int64 kernel, Clip-6 is float32 only -> those combinations stay rare / out
-    dts = [F32, F32, F32, F64, F16, I32, I32, I8] + ([I64, I64, U8] if "Relu" not in ops else [I64] if _rare(g, 2) else [])
+    dts = [F32, F32, F64, F16, I32, I32, I8] + ([I64, I64, U8] if "Relu" not in ops else [I64] if _rare(g, 2) else []) + [F32]
     if old_form:
         g.set_opset(g.pick([9, 10]))
         old_form = g.opset < 11
@@ -317,7 +327,7 @@ def _reluclip(g, prefer):
     if dt != F32 and g.opset < 11:
         dt = np.dtype(F32)
     x = _x(g, [dt])
-    state = {"tags": set(), "forms": [], "bounds": [], "rng": rng, "clean": g.chance(5)}
+    state = {"tags": set(), "forms": [], "bounds": [], "rng": rng, "clean": _mostly(g, 6)}
     cur, inner = x, None
     for i, op in enumerate(ops):
         r = g.emit("Relu", [cur]) if op == "Relu" else _clip(g, cur, state, old_form)
@@ -405,10 +415,11 @@ def _cast_defined(v, src, to):
 
 
 def _cast_cos(g, prefer_value):
-    with_value = prefer_value if g.chance(8) else not prefer_value
+    rng = np.random.default_rng(g.seed())  # drawn first: value dtype, value and target type are a function of this seed
+    with_value = prefer_value if _mostly(g, 8) else not prefer_value
     tag = "planted:cast_cos" if with_value else "planted:cast_cos_novalue"
     # ---- shape operand
-    skind = g.pick(["const"] * 6 + ["dynamic"] * 4)
+    skind = g.pick(["const"] * 3 + ["dynamic"] * 4 + ["const"] * 3)
     if skind == "dynamic":
         y = _x(g, [F32, I64, BOOL], ranks=(2, 1, 2, 3), via_node=1)
         attrs = {}
@@ -433,19 +444,20 @@ def _cast_cos(g, prefer_value):
     src = np.dtype(F32)
     v = 0.0
     if with_value:
-        src = g.pick(_COS_DT)
-        v = g.pick(_cos_values(src))
+        src = _COS_DT[int(rng.integers(len(_COS_DT)))]
+        vals = _cos_values(src)
+        v = vals[int(rng.integers(len(vals)))]
         vshape = (1,)
         with np.errstate(all="ignore"):
             attrs["value"] = numpy_helper.from_array(np.full(vshape, v, dtype=src), name="value")
     # ---- target type
     targets = list(_COS_DT) + ([None] if _ENABLE_STRING else []) + ["bfloat16"]
-    to = g.pick(targets)
+    to = targets[int(rng.integers(len(targets)))]
     if to == "bfloat16":
         to_enum, to_name = TensorProto.BFLOAT16, "bfloat16"
     elif to is None:
         if not _cast_defined(v, src, None):
-            to = np.dtype(g.pick([F32, I64, BOOL, np.dtype("uint8")]))
+            to = np.dtype([F32, I64, BOOL, np.dtype("uint8")][int(rng.integers(4))])
             to_enum, to_name = np2onnx(to), to.name
         else:
             to_enum, to_name = TensorProto.STRING, "string"
@@ -453,7 +465,7 @@ def _cast_cos(g, prefer_value):
         to_enum, to_name = np2onnx(to), to.name
     if isinstance(to, np.dtype) and not _cast_defined(v, src, to):
         # undefined float -> int: fall back to a defined target of the same flavour
-        to = np.dtype(g.pick([F32, F64, F16, BOOL]))
+        to = np.dtype([F32, F64, F16, BOOL][int(rng.integers(4))])
         to_enum, to_name = np2onnx(to), to.name
         g.features.add(f"{tag}:ub_avoided")
     c = g.emit("ConstantOfShape", [shape], **attrs)
@@ -497,7 +509,7 @@ def _slice(g, flavour):
     x = _x(g, [F32, F32, I64, BOOL, F64], ranks=(2, 1, 2, 3), dim_choices=(3, 2, 4, 1), sym=3, via_node=3)
     rank = x.rank
     tag = "planted:slice"
-    single = g.chance(7)
+    single = _mostly(g, 7)
     naxes = 1 if single else g.pick(list(range(1, rank + 1)))
     perm = list(g.draw(_PERMS(rank)))
     axes = perm[:naxes]
@@ -507,7 +519,8 @@ def _slice(g, flavour):
     cls = set()
     for a in axes:
         d = x.shape[a]
-        mode = g.pick(["full"] * (12 if flavour == 2 else 7) + ["start", "short", "step", "reverse"])
+        k = 6 if flavour == 2 else 3
+        mode = g.pick(["full"] * k + ["start", "short", "step", "reverse"] + ["full"] * k)
         if mode == "full":
             s, st = 0, 1
             e = g.pick([d, d, d + 1, d + 5, INT64_MAX, INT64_MAX, 2**31 - 1])
@@ -546,7 +559,7 @@ def _slice(g, flavour):
         return g.const_array(np.asarray(vals, dtype=idt), how=how)
 
     ins = [x, c(starts), c(ends)]
-    n_in = g.pick([5] * 8 + [4, 3])
+    n_in = g.pick([5] * 4 + [4, 3] + [5] * 4)
     default_axes = [a % rank for a in axes] == list(range(len(axes)))
     if all(s == 1 for s in steps) and n_in < 5:
         if n_in == 4 or not default_axes:
@@ -569,7 +582,7 @@ def _slice(g, flavour):
         g.features.add(f"{tag}:same_shape")
     # consumer: gives the slice output a value_info entry in the 'sample' / 'infer' assemblies
     _static_outputs(g, tag, 5 if flavour == 2 else 3)
-    want_consumer = g.chance(8 if flavour == 2 else 4)
+    want_consumer = _mostly(g, 8) if flavour == 2 else _rare(g, 4)
     if want_consumer:
         g.features.add(f"{tag}:consumed")
         r2 = g.emit("Identity" if x.dtype == BOOL or g.chance(5) else "Abs", [r[0]])
@@ -601,7 +614,7 @@ def _reshape(g):
     tag = "planted:mat_reshape"
     if _rare(g, 2):
         g.set_opset(13)
-    dt = g.pick([F32, F32, I64, F64])
+    dt = g.pick([F32, I64, F64, F32])
     zero = _rare(g, 3, 20)
     if zero:
         shape = g.pick([(2, 0), (0, 3), (2, 0, 3)])
@@ -612,8 +625,8 @@ def _reshape(g):
     x = _x(g, [dt], shape=shape, sym=4, via_node=2)
     rank = x.rank
     size = int(np.prod(shape))
-    form = g.pick(["shape_of_y", "shape_of_y", "shape_of_x", "head_concat", "head_concat", "shape_attr_concat", "minus1_concat",
-                   "const_concat", "identity_const", "ovinit", "const"])
+    form = g.pick(["shape_of_y", "shape_of_x", "head_concat", "shape_attr_concat", "minus1_concat", "const_concat", "identity_const",
+                   "ovinit", "const", "head_concat", "shape_of_y"])
     if zero and form in ("minus1_concat", "head_concat", "shape_attr_concat"):
         form = "shape_of_x"
     tgt = None
@@ -709,7 +722,7 @@ def _reshape(g):
     g.features.add(f"{tag}:opset{'13' if g.opset < 14 else '14+'}")
     g.features.add(f"{tag}:out_rank{r[0].rank}")
     _static_outputs(g, tag, 4)
-    if g.chance(7):
+    if _mostly(g, 7):
         g.features.add(f"{tag}:consumed")
         r2 = g.emit(g.pick(["Identity", "Abs"]), [r[0]])
         if r2:
